@@ -9,6 +9,7 @@ RULE = ('random PDAs (1-4 states, input {a,b}, stack {x,y}, epsilon in {_, ε, \
         'Observed: pda_accepts_word, pda_epsilon_closure of sampled configuration sets, pda_do_transition, pda_can_pop_push, pda_pop_push. Relation: below the limit (model closure not truncated) exact equality; '
         'when truncated, only soundness (every member epsilon-reachable / a True verdict has an accepting computation, decided with a 2x larger budget). '
         'Non-trivial = at least one accepted and one rejected word and at least one epsilon move; distinct by (PDA text, limit).')
+RULE += ' Added after the seeded rounds: multi-character stack symbols with coinciding spellings (random and the structured spelling_pda family), dense epsilon graphs with a limit just above the number of configurations, transitions replaced in place and the object queried again.'
 CODES = {2: 'pda_epsilon_closure raised', 3: 'pda_epsilon_closure differs from the exact closure although no limit was hit', 4: 'truncated closure lost an argument configuration',
          5: 'pda_accepts_word raised / timed out', 6: 'pda_accepts_word differs from the proved model although no closure hit the limit',
          7: 'pda_accepts_word answered True for a word without accepting computation', 8: 'pda_do_transition differs', 10: 'pda_can_pop_push / pda_pop_push differ',
@@ -62,6 +63,18 @@ def gen(rng, tier):
         ws = G.words_str(p['Sigma'], 2 if len(p['Sigma']) > 1 else 3) + G.random_words(rng, p['Sigma'], 4, 5)
         cfgs = [[rng.choice(p['Q']), [rng.choice(p['Gamma'] or ['x']) for _ in range(rng.randint(0, 3))]] for _ in range(3)]
         cases.append({'P': p, 'limit': limit, 'ws': ws, 'sets': [[['q0', []]], cfgs[:1], cfgs]})
+    # dense epsilon graphs: k pairwise epsilon-connected states (k + 1 configurations in the closure, about k*k epsilon moves) with a
+    # limit just above the number of configurations: the closure must be complete
+    for _ in range(12 if quick else 200):
+        k = rng.randint(3, 6)
+        e = rng.choice(['_', ''])
+        Q = ['d%d' % i for i in range(k)] + ['z']
+        delta = [[p, e, e, q, e] for p in Q[:k] for q in Q[:k] if p != q or rng.random() < 0.5]
+        delta.append([Q[rng.randrange(k)], e, e, 'z', e])
+        delta.append(['z', 'a', e, 'z', e])
+        rng.shuffle(delta)
+        p = {'Q': Q, 'Sigma': ['a'], 'Gamma': ['x'], 'delta': delta, 'q0': 'd0', 'F': ['z'], 'eps': e}
+        cases.append({'P': p, 'limit': k + 1 + rng.randint(0, 3), 'ws': ['', 'a', 'aa'], 'sets': [[['d0', []]]]})
     # the same object is queried, its transitions are replaced in place, and it is queried again
     for _ in range(60 if quick else 1000):
         sg, gm, e = rng.choice(['a', 'ab']), 'xy', rng.choice(['_', ''])
